@@ -971,6 +971,94 @@ func runC20(c *Ctx) error {
 		for _, it := range c20ExampleItems(types) {
 			add("documented-default", "docdefault;"+it)
 		}
+		// FOREIGN ENVIRONMENT: only BHS_<KEY> (exactly: upper case, "." -> "_") is the variable of a key.  Variables
+		// that merely look like it - the un-prefixed <KEY>, lower/mixed case spellings, BHS<KEY>, BHS__<KEY>,
+		// bhs_<key>, BHS_<key>, dotted names - and generic ones (PORT, HOST, TOKEN, DEBUG, CONFIG_FILE ...) carry a
+		// DIFFERENT value and must change nothing, with the key otherwise at its default, from the file, from its
+		// real variable, from both.
+		{
+			two := func(k c20Key) (string, string) { // (the key's real value, the foreign value); both non-default
+				switch k.Type {
+				case "bool":
+					not := "true"
+					if k.Default == "true" {
+						not = "false"
+					}
+					return k.Default, not // a bool has one non-default value: the foreign one gets it
+				case "int":
+					return "7", "4321"
+				case "uint16":
+					return "6543", "1"
+				case "duration":
+					return "1m30s", "36h0m0s"
+				case "enum":
+					p := c20Pool(k, false)
+					return p[0], p[1]
+				}
+				if k.Key == "logging.level" {
+					return "info", "warn"
+				}
+				return "verif-A", "foreign-Z"
+			}
+			mixed := func(u string) string { // HTTP_PORT -> Http_Port
+				parts := strings.Split(strings.ToLower(u), "_")
+				for i, p := range parts {
+					if p != "" {
+						parts[i] = strings.ToUpper(p[:1]) + p[1:]
+					}
+				}
+				return strings.Join(parts, "_")
+			}
+			foreignNames := func(k c20Key) []string {
+				u := strings.TrimPrefix(c20EnvName(k.Key), "BHS_")
+				l := strings.ToLower(u)
+				return []string{u, l, mixed(u), "BHS" + u, "BHS__" + u, "bhs_" + l, "Bhs_" + u, "BHS_" + l, "bhs_" + u,
+					"_" + u, u + "_", "BHS_" + strings.ToUpper(k.Key), k.Key, "HEADERS_SERVICE_" + u, "BHS_BHS_" + u}
+			}
+			var sample []int
+			seenT := map[string]bool{}
+			for i, k := range keys {
+				if th || !seenT[k.Type] || i == len(keys)-1 || k.Key == "http.auth_token" || k.Key == "db.postgres.password" {
+					seenT[k.Type] = true
+					sample = append(sample, i)
+				}
+			}
+			for _, ki := range sample {
+				k := keys[ki]
+				a, z := two(k)
+				var all []string
+				for _, n := range foreignNames(k) {
+					all = append(all, "E:"+n+"="+z)
+					add("foreign-env:single", "load;E:"+n+"="+z)
+					if th {
+						add("foreign-env:single+file", "load;F:"+k.Key+"="+a+";E:"+n+"="+z)
+					}
+				}
+				fa := strings.Join(all, ";")
+				add("foreign-env:all-names", "load;"+fa)
+				add("foreign-env:all-names+file", "load;F:"+k.Key+"="+a+";"+fa)
+				add("foreign-env:all-names+real-env", "load;E:"+c20EnvName(k.Key)+"="+a+";"+fa)
+				add("foreign-env:all-names+real-env+file", "load;E:"+c20EnvName(k.Key)+"="+a+";Q:"+k.Key+"="+z+";"+fa)
+			}
+			// every key's un-prefixed variable at once (and the lower-case one), keys at default / all from the file
+			var unpref, lower, allF []string
+			for _, k := range keys {
+				a, z := two(k)
+				u := strings.TrimPrefix(c20EnvName(k.Key), "BHS_")
+				unpref = append(unpref, "E:"+u+"="+z)
+				lower = append(lower, "E:bhs_"+strings.ToLower(u)+"="+z)
+				allF = append(allF, "F:"+k.Key+"="+a)
+			}
+			add("foreign-env:every-key-unprefixed", "load;"+strings.Join(unpref, ";"))
+			add("foreign-env:every-key-unprefixed+file", "load;"+strings.Join(allF, ";")+";"+strings.Join(unpref, ";"))
+			add("foreign-env:every-key-lower", "load;"+strings.Join(lower, ";"))
+			add("foreign-env:every-key-lower+file", "load;"+strings.Join(allF, ";")+";"+strings.Join(lower, ";"))
+			generic := "E:PORT=1234;E:HOST=foreign-host;E:TOKEN=foreign-token;E:AUTH_TOKEN=foreign-token;E:DEBUG=true;E:CONFIG_FILE=/nonexistent/foreign.yaml;" +
+				"E:LEVEL=error;E:LOG_LEVEL=error;E:ENGINE=postgres;E:PASSWORD=foreign-pw;E:USER=foreign-user;E:ENABLED=true;E:FILE_PATH=/foreign.db;E:BHS=1;E:BHS_=1"
+			add("foreign-env:generic", "load;"+generic)
+			add("foreign-env:generic+file", "load;F:http.port=7;F:db.postgres.host=verif-A;"+generic)
+			add("foreign-env:generic+real-env", "load;E:BHS_HTTP_PORT=7;E:BHS_LOGGING_LEVEL=info;"+generic)
+		}
 		// duration spellings (quick and thorough): every spelling through the environment, the file (typed) and the
 		// file (quoted), and under an environment-over-file pair of two different spellings
 		for _, k := range keys {
